@@ -371,6 +371,7 @@ class DependencyTools():
         idx = 1
         while d_var_name in symbol_map:
             d_var_name = f"d{idx}_{var_name}"
+            idx += 1
 
         # Create a sympy symbol for this new variable
         d_var = sympy.Symbol(d_var_name)
